@@ -7,7 +7,7 @@ from . import c09
 
 PROP = 'C14'
 PLANS = {'quick': [('GOPS', 'all', 3, 1), ('GOPS2', 'all', 2, 1), ('GOPS', 'all', 1, 1, 'plain', 'busy'), ('GOPS', 'all', 1, 1, 'plain', 'reloaded')],
-         'thorough': [('GOPS', 'all', 4, 1), ('GOPS2', 'all', 4, 1), ('GOPS', 'all', 3, 2)]}
+         'thorough': [('GOPS', 'all', 3, 2), ('GOPS2', 'all', 3, 1), ('GOPS', 'all', 2, 1, 'plain', 'busy'), ('GOPS', 'all', 2, 1, 'plain', 'reloaded')]}
 EDITS = ['edit_tags', 'edit_extras', 'edit_ttc', 'edit_children', 'edit_flags']
 
 
